@@ -28,13 +28,18 @@ namespace c07
     // the initial defect rho * e_k is +-2^j: its norm and the reciprocal of the norm are exact, so the first Krylov vector is +-e_k
     // exactly, A v = a_kk v exactly, and the pseudo-residual after one step is exactly 0 (with another rho, e.g. 6.4375, v has a
     // rounding error, the pseudo-residual is 1e-15 instead of 0 and (F)GMRES(k >= 2) runs into the 0/0 of scope fact ii)
-    const double x0k = correct ? dy(0) : 0.0, rho = std::ldexp(t.flag(1, 2) ? 1.0 : -1.0, t.range(0, 5) - 2);
+    const double x0k = correct ? dy(0) : 0.0; double rho = std::ldexp(t.flag(1, 2) ? 1.0 : -1.0, t.range(0, 5) - 2);
+    // variant "near breakdown" (known finding c07-gmres-near-breakdown on the pinned tree): the defect is an odd multiple of 1/16,
+    // so the first basis vector may carry one rounding error and the pseudo-residual is ~1e-16 d0 instead of 0.  The solution
+    // still lies in the first Krylov space and the estimate is far below every tolerance - the solve must succeed all the same.
+    const bool near_bd = (kind <= 1) && t.flag(1, 4) && !c.excl("c07-gmres-near-breakdown");
+    if(near_bd) { rho = double(2 * t.range(1, 60) + 1) / 16.0 * (rho < 0 ? -1.0 : 1.0); c.label("breakdown:near"); } else c.label("breakdown:exact");
     const double rk = rho + dg[(size_t)k] * x0k;   // exact: dyadic operands of small magnitude
     static const char* kn[] = {"fgmres", "gmres", "idrs"}; static const char* sn[] = {"diagonal", "single-free-dof"};
-    c.desc.set("solver", std::string(kn[kind]) + "(" + std::to_string(dim) + ")"); c.desc.set("system", sn[sys]); c.desc.set("n", n); c.desc.set("k", k); c.desc.set("diag", J(dg)); c.desc.set("rhs_k", rk); c.desc.set("initial_defect", rho);
+    c.desc.set("solver", std::string(kn[kind]) + "(" + std::to_string(dim) + ")"); c.desc.set("system", sn[sys]); c.desc.set("n", n); c.desc.set("k", k); c.desc.set("diag", J(dg)); c.desc.set("rhs_k", rk); c.desc.set("initial_defect", rho); c.desc.set("breakdown", near_bd ? "near" : "exact");
     c.desc.set("mode", correct ? "correct" : "apply"); c.desc.set("x0_k", x0k);
     c.label(std::string("solver:") + kn[kind]); c.label(std::string("system:") + sn[sys]); c.label("dim:" + std::to_string(dim)); c.label(correct ? "mode:correct" : "mode:apply");
-    c.op = std::string("lucky:") + kn[kind]; c.nontrivial = dim >= 2; c.announce();
+    c.op = std::string(near_bd ? "near-breakdown:" : "lucky:") + kn[kind]; c.nontrivial = dim >= 2; c.announce();
     // matrix
     std::vector<Index> rp((size_t)n + 1, 0), ci; std::vector<double> va;
     for(int i = 0; i < n; ++i) { if(sys == 1 && i > 0) { ci.push_back(Index(i - 1)); va.push_back(-1.0); } ci.push_back(Index(i)); va.push_back(dg[(size_t)i]); if(sys == 1 && i + 1 < n) { ci.push_back(Index(i + 1)); va.push_back(-1.0); } rp[(size_t)i + 1] = Index(ci.size()); }
